@@ -180,13 +180,32 @@ func TestC21ScriptReplay(t *testing.T) { vstat.Replay(t, specC21s) }
 // ---- relay side of C21: acknowledgements and clears are matched to the message they name ----
 
 func genC21r(t *rapid.T) srvCase {
-	ops := genSops(t, []string{"send", "send", "ack", "ack", "ack", "clear", "clear", "gate", "release"}, 2, 3, 12)
+	ops := genSops(t, []string{"send", "send", "send", "ack", "ack", "ack", "clear", "clear", "gate", "release", "attach"}, 2, 3, 14)
 	for i := range ops {
 		if ops[i].Op == "send" {
-			ops[i].Kind, ops[i].Epoch, ops[i].Reuse = "honest", "current", false
+			// honest senders; message seqnos repeat across sessions (a client restarts its counter, or retransmits)
+			ops[i].Kind, ops[i].Epoch = "honest", "current"
 		}
 	}
 	ops = append([]sop{{Op: "attach", P: 0, Q: 1}, {Op: "attach", P: 1, Q: 0}}, ops...)
+	if rapid.IntRange(0, 2).Draw(t, "delayedack") == 0 {
+		// delayed-acknowledgement pattern: p sends, the session is re-opened (p or q re-attaches), p sends again with
+		// the same message seqno, and q's acknowledgement of the first message (stamped with the old epoch) arrives
+		p := rapid.IntRange(0, 1).Draw(t, "dp")
+		q := 1 - p
+		re := sop{Op: "attach", P: p, Q: q}
+		if rapid.Bool().Draw(t, "reattach-q") {
+			re = sop{Op: "attach", P: q, Q: p}
+		}
+		pat := []sop{
+			{Op: "send", P: p, Q: q, Kind: "honest", Epoch: "current"},
+			re,
+			{Op: "send", P: p, Q: q, Kind: "honest", Epoch: "current", Reuse: true},
+			{Op: rapid.SampledFrom([]string{"ack", "ack", "clear"}).Draw(t, "dop"), P: q, Q: p, X: "last", Epoch: "stale"},
+		}
+		at := rapid.IntRange(2, len(ops)).Draw(t, "dat")
+		ops = append(append(append([]sop{}, ops[:at]...), pat...), ops[at:]...)
+	}
 	return srvCase{Ops: ops}
 }
 
